@@ -10,24 +10,30 @@ pub struct Kwargs { _p: () }
 pub struct State { _p: () }
 #[verifier::external_body]
 pub struct VxDecodeError { _p: () }
-pub struct VxEngine { pub url_safe: bool, pub pad: bool }
+/// how an engine treats `=` padding when DECODING (base64::engine::DecodePaddingMode)
+pub enum VxDecPad { Indifferent, RequireCanonical, RequireNone }
+pub struct VxEngine { pub url_safe: bool, pub pad: bool, pub dec: VxDecPad }
 pub mod general_purpose {
     use super::VxEngine;
-    pub const STANDARD: VxEngine = VxEngine { url_safe: false, pad: true };
-    pub const STANDARD_NO_PAD: VxEngine = VxEngine { url_safe: false, pad: false };
-    pub const URL_SAFE: VxEngine = VxEngine { url_safe: true, pad: true };
-    pub const URL_SAFE_NO_PAD: VxEngine = VxEngine { url_safe: true, pad: false };
+    pub const STANDARD: VxEngine = VxEngine { url_safe: false, pad: true, dec: super::VxDecPad::RequireCanonical };
+    pub const STANDARD_NO_PAD: VxEngine = VxEngine { url_safe: false, pad: false, dec: super::VxDecPad::RequireNone };
+    pub const URL_SAFE: VxEngine = VxEngine { url_safe: true, pad: true, dec: super::VxDecPad::RequireCanonical };
+    pub const URL_SAFE_NO_PAD: VxEngine = VxEngine { url_safe: true, pad: false, dec: super::VxDecPad::RequireNone };
 }
 /// the two decode engines defined in the file (padding mode Indifferent): by alphabet
-pub const STANDARD_DECODE: VxEngine = VxEngine { url_safe: false, pad: true };
-pub const URL_SAFE_DECODE: VxEngine = VxEngine { url_safe: true, pad: true };
+pub const STANDARD_DECODE: VxEngine = VxEngine { url_safe: false, pad: true, dec: VxDecPad::Indifferent };
+pub const URL_SAFE_DECODE: VxEngine = VxEngine { url_safe: true, pad: true, dec: VxDecPad::Indifferent };
 pub uninterp spec fn kw_bool(k: Kwargs, name: Seq<char>) -> Result<Option<bool>, Error>;
 pub open spec fn opt_or(o: Option<bool>, d: bool) -> bool { match o { Some(b) => b, None => d } }
 #[verifier::external_body]
 pub fn vx_kw_bool(k: &Kwargs, name: &str) -> (r: TeraResult<Option<bool>>) ensures r == kw_bool(*k, name@) { unimplemented!() }
-pub uninterp spec fn enc_spec(e: VxEngine, s: Seq<char>) -> Seq<char>;
-/// decoding ignores the padding setting (DecodePaddingMode::Indifferent): a function of the alphabet only
-pub uninterp spec fn dec_bytes(url_safe: bool, s: Seq<char>) -> Option<Seq<u8>>;
+/// encoding: a function of alphabet and padding only
+pub uninterp spec fn enc_text(url_safe: bool, pad: bool, s: Seq<char>) -> Seq<char>;
+pub open spec fn enc_spec(e: VxEngine, s: Seq<char>) -> Seq<char> { enc_text(e.url_safe, e.pad, s) }
+/// decoding: a function of the alphabet and of how padding is treated (only `Indifferent` accepts padded AND unpadded text)
+pub uninterp spec fn dec_bytes_mode(url_safe: bool, dec: VxDecPad, s: Seq<char>) -> Option<Seq<u8>>;
+/// what the filter documents: padded and unpadded input alike
+pub open spec fn dec_bytes(url_safe: bool, s: Seq<char>) -> Option<Seq<u8>> { dec_bytes_mode(url_safe, VxDecPad::Indifferent, s) }
 pub uninterp spec fn utf8_text(b: Seq<u8>) -> Option<Seq<char>>;
 pub uninterp spec fn utf8_bytes(s: Seq<char>) -> Seq<u8>;
 pub open spec fn dec_text(url_safe: bool, s: Seq<char>) -> Option<Seq<char>> {
@@ -37,7 +43,7 @@ pub open spec fn dec_text(url_safe: bool, s: Seq<char>) -> Option<Seq<char>> {
 pub fn vx_b64_encode(e: &VxEngine, s: &str) -> (r: String) ensures r@ == enc_spec(*e, s@) { unimplemented!() }
 #[verifier::external_body]
 pub fn vx_b64_decode(e: &VxEngine, s: &str) -> (r: Result<Vec<u8>, VxDecodeError>)
-    ensures r is Ok <==> dec_bytes(e.url_safe, s@) is Some, r is Ok ==> r->Ok_0@ == dec_bytes(e.url_safe, s@)->Some_0
+    ensures r is Ok <==> dec_bytes_mode(e.url_safe, e.dec, s@) is Some, r is Ok ==> r->Ok_0@ == dec_bytes_mode(e.url_safe, e.dec, s@)->Some_0
 { unimplemented!() }
 #[verifier::external_body]
 pub fn vx_map_err_b64(r: Result<Vec<u8>, VxDecodeError>) -> (o: TeraResult<Vec<u8>>)
@@ -50,6 +56,6 @@ pub fn vx_string_from_utf8(b: Vec<u8>) -> (o: TeraResult<String>)
 { unimplemented!() }
 /// ASSUMED contract of the base64 crate + UTF-8: decoding with the same alphabet undoes encoding whatever the padding
 #[verifier::external_body]
-pub proof fn axiom_b64_roundtrip(e: VxEngine, s: Seq<char>)
-    ensures dec_bytes(e.url_safe, enc_spec(e, s)) == Some(utf8_bytes(s)), utf8_text(utf8_bytes(s)) == Some(s)
+pub proof fn axiom_b64_roundtrip(url_safe: bool, pad: bool, s: Seq<char>)
+    ensures dec_bytes(url_safe, enc_text(url_safe, pad, s)) == Some(utf8_bytes(s)), utf8_text(utf8_bytes(s)) == Some(s)
 {}
